@@ -361,8 +361,13 @@ class NetworkService(ModelElement):
         else:
             ltype = LinkType.Patch
 
-        peer_link = Link(name=peer_if.name + '-link', topo=self.topo, etype=ElementType.NEW,
-                         interfaces=[interface, peer_if], ltype=ltype)
+        try:
+            peer_link = Link(name=peer_if.name + '-link', topo=self.topo, etype=ElementType.NEW,
+                             interfaces=[interface, peer_if], ltype=ltype)
+        except Exception:
+            # the link could not be created (e.g. its derived name is too long) - don't leave the port behind
+            self.topo.graph_model.remove_cp_and_links(node_id=peer_if.node_id)
+            raise
         self._interfaces.append(peer_if)
 
     def __peer_name_taken(self, peer_name: str) -> bool:
